@@ -148,7 +148,7 @@ package bbolt
 // ---------------------------------------------------------------- transaction life cycle (C01 C03 C06 C08)
 
 // dbframe/txframe: what the commit path never changes (identity of the objects, configuration, writer lock state)
-//@ pure func dbframe(db *DB) bool = db.rwlock.held == old(db.rwlock.held) && db.metalock.held == old(db.metalock.held) && db.rwtx == old(db.rwtx) && db.pageSize == old(db.pageSize) && db.NoSync == old(db.NoSync) && db.NoFreelistSync == old(db.NoFreelistSync) && db.StrictMode == old(db.StrictMode) && db.freelist == old(db.freelist) && db.MaxSize == old(db.MaxSize) && db.AllocSize == old(db.AllocSize) && db.readOnly == old(db.readOnly)
+//@ pure func dbframe(db *DB) bool = db.rwlock.held == old(db.rwlock.held) && db.metalock.held == old(db.metalock.held) && db.batchMu.held == old(db.batchMu.held) && db.rwtx == old(db.rwtx) && db.pageSize == old(db.pageSize) && db.NoSync == old(db.NoSync) && db.NoFreelistSync == old(db.NoFreelistSync) && db.StrictMode == old(db.StrictMode) && db.freelist == old(db.freelist) && db.MaxSize == old(db.MaxSize) && db.AllocSize == old(db.AllocSize) && db.readOnly == old(db.readOnly)
 //@ pure func txframe(tx *Tx) bool = tx.db == old(tx.db) && tx.meta == old(tx.meta) && tx.writable == old(tx.writable) && tx.managed == old(tx.managed) && tx.root.tx == old(tx.root.tx) && tx.meta.txid == old(tx.meta.txid) && tx.meta.magic == old(tx.meta.magic) && tx.meta.version == old(tx.meta.version) && dbframe(tx.db)
 
 // mapok(tx): the mapping is absent or both meta pointers are set and one meta validates; the transaction's private meta is not one of them
@@ -169,6 +169,7 @@ package bbolt
 //@   ensures [shared] db.meta0.txid == old(db.meta0.txid) && db.meta1.txid == old(db.meta1.txid) && tx.writable == old(tx.writable) && dbmeta(db) == old(dbmeta(db)) && db.meta0 == old(db.meta0) && db.meta1 == old(db.meta1) && metavalid(db.meta0) == old(metavalid(db.meta0)) && metavalid(db.meta1) == old(metavalid(db.meta1))
 
 //@ func (*Tx).close
+//@   ensures [batchmu] old(tx.db) != nil ==> old(tx.db).batchMu.held == old(tx.db.batchMu.held)
 //@   props C03 C08 C10
 //@   requires tx.db != nil && tx.writable ==> tx.db.rwlock.held
 //@   requires tx.db != nil && !tx.writable ==> tx.db.mmaplock.rcount >= 1 && tx.meta != nil && !tx.db.metalock.held
@@ -179,6 +180,7 @@ package bbolt
 //@   ensures [reader] old(tx.db) != nil && !old(tx.writable) ==> calls("(*DB).removeTx", old(tx.db)) == old(calls("(*DB).removeTx", tx.db)) + 1
 
 //@ func (*DB).removeTx
+//@   ensures [batchmu] db.batchMu.held == old(db.batchMu.held)
 //@   props C02 C10 C03
 //@   requires db.mmaplock.rcount >= 1 && tx.meta != nil && !db.metalock.held
 //@   ensures [runlock] db.mmaplock.rcount == old(db.mmaplock.rcount) - 1
@@ -215,6 +217,7 @@ package bbolt
 //@   ensures b.tx.db.MaxSize > 0 && b.tx.meta.pgid != old(b.tx.meta.pgid) ==> (b.tx.meta.pgid + 1) * b.tx.db.pageSize <= b.tx.db.MaxSize
 
 //@ func (*Tx).rollback
+//@   ensures [batchmu] old(tx.db) != nil ==> old(tx.db).batchMu.held == old(tx.db.batchMu.held)
 //@   props C08 C03 C07
 //@   requires tx.db != nil && tx.writable ==> tx.db.rwlock.held && tx.meta != nil && tx.db.freelist != nil
 //@   requires tx.db != nil && tx.writable && tx.db.data != nil ==> tx.db.meta0 != nil && tx.db.meta1 != nil && (metavalid(tx.db.meta0) || metavalid(tx.db.meta1))
@@ -227,6 +230,7 @@ package bbolt
 //@   ensures [disk] unsynced == old(unsynced) && nwrites == old(nwrites)
 
 //@ func (*Tx).nonPhysicalRollback
+//@   ensures [batchmu] old(tx.db) != nil ==> old(tx.db).batchMu.held == old(tx.db.batchMu.held)
 //@   props C08 C03
 //@   requires tx.db != nil && tx.writable ==> tx.db.rwlock.held && tx.meta != nil && tx.db.freelist != nil
 //@   requires tx.db != nil && !tx.writable ==> tx.db.mmaplock.rcount >= 1 && tx.meta != nil && !tx.db.metalock.held
@@ -242,6 +246,7 @@ package bbolt
 //@   requires tx.db != nil && !tx.writable ==> tx.db.mmaplock.rcount >= 1 && tx.meta != nil && !tx.db.metalock.held
 //@   ensures [closedtx] old(tx.db) == nil ==> result == berrors.ErrTxClosed && sameheap("sync.Mutex.held") && sameheap("sync.RWMutex.rcount")
 //@   ensures [ok] old(tx.db) != nil ==> result == nil
+//@   ensures [batchmu] old(tx.db) != nil ==> old(tx.db).batchMu.held == old(tx.db.batchMu.held)
 //@   ensures [closed] tx.db == nil
 //@   ensures [unlocked] old(tx.db) != nil && old(tx.writable) ==> !old(tx.db).rwlock.held && old(tx.db).rwtx == nil
 
@@ -266,7 +271,7 @@ package bbolt
 //@   requires tx.db != nil && tx.writable && tx.meta != nil && tx.db.freelist != nil && tx.db.rwlock.held && tx.db.pageSize >= 512 && tx.db.pageSize <= 16777216 && tx.db.rwtx == tx && (tx.meta.pgid + 1) * tx.db.pageSize <= tx.db.datasz && tx.db.datasz <= common.MaxMapSize
 //@   requires (tx.meta.pgid + 4294967296) * tx.db.pageSize <= 2305843009213693952 && tx.db.AllocSize >= 0 && tx.db.AllocSize <= 2305843009213693952 && tx.db.datasz >= 0 && tx.db.MaxSize >= 0
 //@   requires mapok(tx)
-//@   ensures [rolledback] err != nil ==> tx.db == nil && !old(tx.db).rwlock.held && calls("(*Tx).rollback", tx) == old(calls("(*Tx).rollback", tx)) + 1
+//@   ensures [rolledback] err != nil ==> tx.db == nil && !old(tx.db).rwlock.held && old(tx.db).batchMu.held == old(tx.db.batchMu.held) && calls("(*Tx).rollback", tx) == old(calls("(*Tx).rollback", tx)) + 1
 //@   ensures [okframe] err == nil ==> txframe(tx) && mapok(tx) && tx.meta.pgid >= old(tx.meta.pgid) && tx.meta.pgid <= old(tx.meta.pgid) + 4294967296 && (tx.meta.pgid + 1) * tx.db.pageSize <= tx.db.datasz && (tx.db.MaxSize > 0 && tx.meta.pgid != old(tx.meta.pgid) ==> (tx.meta.pgid + 1) * tx.db.pageSize <= tx.db.MaxSize)
 //@   ensures [ok] err == nil ==> tx.db == old(tx.db) && calls("(*Tx).close", tx) == old(calls("(*Tx).close", tx)) && tx.db.datasz <= common.MaxMapSize && calls("(*Tx).rollback", tx) == old(calls("(*Tx).rollback", tx)) && calls("freelist.Interface.Write", tx.db.freelist) == old(calls("freelist.Interface.Write", tx.db.freelist)) + 1
 //@   ensures [disk] unsynced == old(unsynced) && nwrites == old(nwrites)
@@ -302,6 +307,7 @@ package bbolt
 //@   loop 1 invariant tx.db == nil
 //@   ensures [closedfield] (old(tx.db) != nil && old(tx.writable)) || old(tx.db) == nil ==> tx.db == nil
 //@   skip writeMeta.panics0 because root page and freelist page below the high-water mark is a tree/allocator invariant (A-tree, A-cow): not derivable from the contracts in reach
+//@   ensures [batchmu] old(tx.db) != nil ==> old(tx.db).batchMu.held == old(tx.db.batchMu.held)
 //@   ensures [closedtx] old(tx.db) == nil ==> err == berrors.ErrTxClosed
 //@   ensures [readonly] old(tx.db) != nil && !old(tx.writable) ==> err == berrors.ErrTxNotWritable
 //@   ensures [closed] old(tx.db) != nil && old(tx.writable) && err == nil ==> calls("(*Tx).close", tx) == old(calls("(*Tx).close", tx)) + 1
@@ -315,6 +321,7 @@ package bbolt
 
 //@ func (*DB).beginRWTx
 //@   returns (t, err)
+//@   ensures [batchmu] db.batchMu.held == old(db.batchMu.held)
 //@   props C03 C10 C17 C02
 //@   requires !db.metalock.held && (db.readOnly || !db.rwlock.held)
 //@   requires !db.readOnly && db.opened && db.data != nil ==> db.meta0 != nil && db.meta1 != nil && (metavalid(db.meta0) || metavalid(db.meta1)) && dbmeta(db).txid < 18446744073709551615 && db.freelist != nil
@@ -329,6 +336,7 @@ package bbolt
 
 //@ func (*DB).beginTx
 //@   returns (t, err)
+//@   ensures [batchmu] db.batchMu.held == old(db.batchMu.held)
 //@   props C02 C03 C10
 //@   requires !db.metalock.held && db.mmaplock.rcount >= 0
 //@   requires db.opened && db.data != nil ==> db.meta0 != nil && db.meta1 != nil && (metavalid(db.meta0) || metavalid(db.meta1)) && dbmeta(db).txid < 18446744073709551615
@@ -352,6 +360,7 @@ package bbolt
 //@   ensures [ro] !writable && err == nil ==> t != nil && !t.writable && t.db == db && t.meta != nil && t.meta.txid == old(dbmeta(db).txid) && db.mmaplock.rcount == old(db.mmaplock.rcount) + 1 && fresh(t)
 //@   ensures [rofail] !writable && err != nil ==> t == nil && db.mmaplock.rcount == old(db.mmaplock.rcount)
 //@   ensures [metalock] !db.metalock.held
+//@   ensures [batchmu] db.batchMu.held == old(db.batchMu.held)
 
 //@ func (*DB).Update$1
 //@   props C03 C08
@@ -360,6 +369,7 @@ package bbolt
 //@   requires t.db != nil && !t.writable ==> t.db.mmaplock.rcount >= 1 && t.meta != nil && !t.db.metalock.held
 //@   ensures [rollback] old(t.db) != nil ==> calls("(*Tx).rollback", t) == old(calls("(*Tx).rollback", t)) + 1 && t.db == nil
 //@   ensures [unlocked] old(t.db) != nil && old(t.writable) ==> !old(t.db).rwlock.held
+//@   ensures [batchmu] old(t.db) != nil ==> old(t.db).batchMu.held == old(t.db.batchMu.held)
 //@   ensures [noop] old(t.db) == nil ==> calls("(*Tx).rollback", t) == old(calls("(*Tx).rollback", t)) && t.db == nil && sameheap("sync.Mutex.held") && sameheap("sync.RWMutex.rcount")
 
 //@ func (*DB).View$1
@@ -374,6 +384,8 @@ package bbolt
 //@   props C03 C08 C16
 //@   requires canbegin(db)
 //@   invokes fn
+//@   callback ensures sameheap("batch.calls") && sameheap("batch.db") && sameheap("batch.timer") && sameheap("call.fn") && sameheap("call.err") && sameheap("DB.batch")
+//@   ensures [batch] sameheap("batch.calls") && sameheap("batch.db") && sameheap("batch.timer") && sameheap("call.fn") && sameheap("call.err") && db.batchMu.held == old(db.batchMu.held)
 //@   ensures [cbonfail] !invoked(fn) ==> result != nil
 //@   ensures [cberr] invoked(fn) && cbresult(fn) != nil ==> result == cbresult(fn)
 //@   callback ensures t.db == db && t.writable && t.meta != nil && t.root.tx == t && db.rwtx == t && db.freelist != nil && mapok(t) && !db.metalock.held
@@ -405,4 +417,7 @@ package bbolt
 //@   requires b != nil && b.db != nil && b.timer != nil && canbegin(b.db) && !b.db.batchMu.held
 //@   ensures [batchmu] !b.db.batchMu.held
 //@   ensures [drained] true
-//@   loop 0 invariant b.db == old(b.db) && !b.db.batchMu.held
+//@   loop 0 invariant b.db == old(b.db) && !b.db.batchMu.held && canbegin(b.db)
+
+//@ F [batch.runonce] props C16 : callers bbolt.(*batch).run subset bbolt.(*batch).run$bound, bbolt.(*batch).trigger
+//@ F [batch.trigger] props C16 : callers bbolt.(*batch).trigger subset bbolt.(*DB).Batch, bbolt.(*batch).trigger$bound
